@@ -16,6 +16,7 @@ import TdVerif.Lemmas.C16Permute
 import TdVerif.Lemmas.C16Reshape
 import TdVerif.Lemmas.C16Nested
 import TdVerif.Lemmas.C16Update
+import TdVerif.Lemmas.C16Storage
 
 namespace TdVerif.Props.C16
 open TdVerif.C16 TdVerif.C16.NT
@@ -193,6 +194,37 @@ theorem setAt_no_invention [DecidableEq O] (r v r' : NT O) (rix : List RIx) (hw 
   · refine Or.inr ?_
     rw [← hfr c (fun c' hc' => hex ⟨c', hc'⟩)]
     exact ho
+
+/-! ### indexed assignment into shared-memory / memory-mapped holders (finding C16-storage-holder-write-dropped) -/
+
+/-- the write path of a shared / memory-mapped holder (`utils._set_item`, model `storageAssign`) EXTENDS the lazy-stack write
+`assign`: wherever `assign` succeeds (in particular on every fully expanded entry, where `setAt_commutes` says what it writes)
+the storage path returns the same entry.  The two differ only where `assign` refuses. -/
+theorem storage_write_extends_lazy_write (r v r' : NT O) (rix : List RIx) (k : Nat) (h : assign r rix v = .ok r') :
+    storageAssign r rix k v = .ok r' :=
+  storageAssign_of_assign r rix k v r' h
+
+/-- … and there it is silent: a member that is a shared node (one object for a sub-batch), addressed by at least one item the caller
+wrote (`k ≠ 0`; even a full slice), accepts ANY index and ANY value and stays what it was (`NonTensorData.__setitem__` keeps nothing of the value's payload). -/
+theorem storage_write_shared_node_swallows (o : O) (s : Shape) (rix : List RIx) (k : Nat) (v : NT O) (hr : rix ≠ []) (hk : k ≠ 0) :
+    storageAssign (.shared o s) rix k v = .ok (.shared o s) := by
+  unfold storageAssign
+  cases rix with
+  | nil => exact absurd rfl hr
+  | cons a t =>
+    cases k with
+    | zero => exact absurd rfl hk
+    | succ n => rfl
+
+/-- the finding, as a pinned counter-witness: on the entry [[p,p,p],[q,q,q]] stored as two shared rows, `td[0, 1] = x` through
+the storage path is accepted and leaves the entry unchanged, while the ordinary path (`setAt`) puts `x` at [0, 1]. -/
+theorem storage_write_dropped_counterexample :
+    let r : NT String := .stack [.shared "p" [3], .shared "q" [3]] 0
+    let rix : List RIx := [.fixed 0, .fixed 1]
+    let v : NT String := .shared "x" []
+    storageSet r rix 2 v = .ok r
+    ∧ (∃ r', setAt r rix v = .ok r' ∧ getAt r' [0, 1] = some "x" ∧ getAt r [0, 1] = some "p" ∧ getAt r' [0, 0] = some "p") := by
+  refine ⟨by rfl, _, by rfl, by rfl, by rfl, by rfl⟩
 
 /-- the whole-entry assignment `td[()] = value` (and `td[...] = value` on an empty batch): the entry becomes the value -/
 theorem setitem_whole [DecidableEq O] (r v : NT O) (hs : shape v = shape r) :
